@@ -439,6 +439,17 @@ Definition lambda_result (lf : lfname) (items rvs : list val) : eres :=
   | LHas => EOk (VBool (match lam_find items rvs 0 with Some _ => true | None => false end))
   end.
 
+(** TemplateString.evaluate: the Liquid string forms of the parts, joined. *)
+Fixpoint concat_liquid (vs : list val) : option str :=
+  match vs with
+  | [] => Some []
+  | v :: vs' =>
+      match to_liquid_string v, concat_liquid vs' with
+      | Some s, Some t => Some (s ++ t)
+      | _, _ => None
+      end
+  end.
+
 (** One step of expression evaluation, parameterised by the recursive call. *)
 Section EvalStep.
 Variable ev : ctx -> expr -> eres.
@@ -585,6 +596,11 @@ Definition eval_step (c : ctx) (e : expr) : eres :=
                 end
           end
       | r => r
+      end
+  | ETemplate parts =>
+      match eval_list c parts with
+      | inr vs => match concat_liquid vs with Some s => EOk (VStr s) | None => EUnm end
+      | inl r => r
       end
   end.
 
@@ -1076,6 +1092,7 @@ Definition render_step (n : node) (c : ctx) (b : buf) : rstate :=
           end
       | inl r => mk (of_eres_status r) c b
       end
+  | NLiquid body => block body c b     (* LiquidNode: a BlockNode over the line statements *)
   | NInclude name var args => render_include name var args c b
   | NRender tn var args => render_render tn var args c b
   | NMacro name params body =>
